@@ -483,6 +483,11 @@ pub fn judge_decode(bytes: &[u8], ctx: &mut Ctx) -> Outcome {
         Ok(e) => {
             ctx.class("accepted-by-library");
             let re = nopanic!(ctx, e.to_cbor_data(), "re-encode", "C06/re-encode");
+            // non-deterministic CBOR first: an accepted non-canonical number is re-encoded (and hashed) in
+            // its reduced form, which can make the recogniser see "out of order" as a mere consequence
+            if let Ok(p) = cbor::parse(bytes) {
+                check!(ctx, p.noncanonical.is_empty(), "accepts-noncanonical", &format!("C06/noncanonical-accepted/{}", p.noncanonical.first().unwrap_or(&"")), "decoder accepted non-deterministic CBOR ({:?}): {}", p.noncanonical, hex::encode(bytes));
+            }
             match parsed {
                 Ok((rec, p)) => {
                     // (i) re-encoding equals the input modulo #6.24 -> #6.201
